@@ -289,31 +289,38 @@ def run(ctx):
     impl = ctx.harness("harness/c/c11_constraint.c", "c11_constraint", deps=["harness/mjbuild.h"])
     if not (drv and impl):
         return
-    ups, lines, misc, extra, hist = c11.synthetic_lines(ctx, 25000 if thorough else 2500, 0)
-    fl, plan = fd_lines(ctx.rng, 6000 if thorough else 900)
-    ctx.extra["synthetic_distribution"] = hist
-    # T: the finite-difference lines are part of the correspondence too (they sit on / next to the boundaries)
-    tie_lines = lines + extra + fl[:(60000 if thorough else 6000)]
-    bad = ctx.differential("mj_constraintUpdate_impl (cost, force, state, cone Hessian) vs Lean model on Float (bitwise)",
-                           [drv], [impl], tie_lines, keyf=c11.keyf)
-    ctx.extra["max_float_deviation"] = max([0.0] + [c11.max_dev(b["model"] or "", b["impl"] or "") for b in bad])
+    nfail, maxdev, hist_tot, stats_tot = 0, 0.0, {}, {}
+    for ch in range(5 if thorough else 1):
+        ups, lines, misc, extra, hist = c11.synthetic_lines(ctx, 25000 if thorough else 8000, 0)
+        fl, plan = fd_lines(ctx.rng, 6000 if thorough else 2500)
+        for k, v in hist.items():
+            hist_tot[k] = hist_tot.get(k, 0) + v
+        # T: the finite-difference lines are part of the correspondence too (they sit on / next to the boundaries)
+        tie_lines = lines + extra + fl[:(40000 if thorough else 12000)]
+        bad = ctx.differential("mj_constraintUpdate_impl (cost, force, state, cone Hessian) vs Lean model on Float (bitwise), chunk %d" % ch,
+                               [drv], [impl], tie_lines, keyf=c11.keyf)
+        maxdev = max([maxdev] + [c11.max_dev(b["model"] or "", b["impl"] or "") for b in bad])
+        # S: finite differences on the real function alone
+        rc, outs, err = ctx.run_lines([impl], fl)
+        if rc == 0 and len(outs) == len(fl):
+            fails, stats = fd_oracle(plan, outs)
+            for k, v in stats.items():
+                stats_tot[k] = stats_tot.get(k, 0) + v
+            for key, what, rep in fails:
+                nfail += 1
+                if nfail <= 8:
+                    rep = dict(rep, replay="feed `line` with jar[row] +- h to <c11_constraint harness> and difference the returned costs")
+                    ctx.oracle_failure(key, what, rep)
+            if ch == 0:
+                u0, b0, e0 = plan[0]
+                ctx.sample({"base_op": fl[b0][:200] + " ...", "tags": u0.tags, "output": outs[b0][:200]})
+        else:
+            ctx.oracle_failure("c12:crash", "constraint harness crashed (rc=%s, %d outputs for %d lines)" % (rc, len(outs), len(fl)), {"stderr": err[-500:]})
+    ctx.extra["synthetic_distribution"] = hist_tot
+    ctx.extra["max_float_deviation"] = maxdev
     ctx.extra["tolerance"] = "bitwise (0 ulp)"
-    # S: finite differences on the real function alone
-    rc, outs, err = ctx.run_lines([impl], fl)
-    nfail = 0
-    if rc == 0 and len(outs) == len(fl):
-        fails, stats = fd_oracle(plan, outs)
-        ctx.extra["fd_checks"] = stats
-        for key, what, rep in fails:
-            nfail += 1
-            if nfail <= 8:
-                rep = dict(rep, replay="feed `line` with jar[row] +- h to <c11_constraint harness> and difference the returned costs")
-                ctx.oracle_failure(key, what, rep)
-        u0, b0, e0 = plan[0]
-        ctx.sample({"base_op": fl[b0][:200] + " ...", "tags": u0.tags, "output": outs[b0][:200]})
-    else:
-        ctx.oracle_failure("c12:crash", "constraint harness crashed (rc=%s, %d outputs for %d lines)" % (rc, len(outs), len(fl)), {"stderr": err[-500:]})
-    cb, cnt = convexity_oracle(ctx.rng, impl, ctx, 4000 if thorough else 500)
+    ctx.extra["fd_checks"] = stats_tot
+    cb, cnt = convexity_oracle(ctx.rng, impl, ctx, 8000 if thorough else 1500)
     ctx.extra["convexity_checks"] = cnt
     for key, what, rep in cb:
         nfail += 1
